@@ -27,10 +27,13 @@ EXTENDS Types, SequencesExt
 
 (* ------------------------------------------------------------------ (i) message universes *)
 Pick(seq) == seq[RandomElement(1..Len(seq))]
-USeq == SetToSeq(U)
+(* times outside 1677-09-21 .. 2262-04-11 (the range of a 64-bit nanosecond count) are ordinary Time values and must cross the wire unchanged:
+   abstract -3, -2, -1 = the years 1066, 1500 and the last second before the lower end; 1000001.. = the first day after the upper end, 2300, 9999 *)
+FarTimes == {-3, -2, -1, 1000001, 1000002, 1000003}
+USeq == SetToSeq(U \cup {TimeV(n) : n \in FarTimes} \cup {ListV(<<TimeV(-2), TimeV(1)>>), TupV(<<TimeV(1000003)>>)})
 TSeq == SetToSeq(TU)
 Names == <<"a", "b", "t.x", "time", "", "é?", "a b">>
-Times == <<0, 1, 2, 86400, 1000000>>      \* abstract event times; 0 = the zero time (no event time)
+Times == <<0, 1, 2, 86400, 1000000, -3, -1, 1000001, 1000003>>      \* abstract event times; 0 = the zero time (no event time)
 RECURSIVE ValSeq(_), FieldSeq(_), FrameSeq(_, _)
 ValSeq(n) == IF n = 0 THEN <<>> ELSE Append(ValSeq(n - 1), Pick(USeq))
 FieldSeq(n) == IF n = 0 THEN <<>> ELSE Append(FieldSeq(n - 1), <<Pick(Names), Pick(TSeq)>>)
